@@ -18,7 +18,6 @@ na = {
 pending = {
  "C02":"simulation target (faults on stored bytes / streams), check not built yet in this revision",
  "C09":"simulation target (histories + plug-in faults), check not built yet in this revision",
- "C12":"simulation target (plug-in fault sequences), check not built yet in this revision",
 }
 checks = {
  "C19": dict(cat="fault_enumeration", ref="DESIGN.md §3 C19, §2.5",
@@ -42,7 +41,11 @@ checks["C20"]=dict(cat="exploration", ref="DESIGN.md §3 C20, §2.2",
    text="the tool's own concurrent operations (Write/Copy on a shared profile, option get/set, temp-file creation, concurrent web requests, parallel fetch) run as simulated tasks under a seeded scheduler whose hand-offs are invisible to the Go race detector; a race report, deadlock, hang, torn output or a result that differs from the one-at-a-time execution is a violation.",
    note="trusted: runtime.RaceDisable semantics (sync events ignored, memory accesses still tracked); the simulated kernel and scheduler are //go:norace so they add no happens-before edges and no reports of their own",
    tech="deterministic simulation: seeded interleavings (random walk, PCT, function-entry preemption) under the race detector with race-invisible scheduling; sequential-equivalence and linearizability oracles")
-order = ["C08","C10","C16","C19","C20"]
+checks["C12"]=dict(cat="fault_enumeration", ref="DESIGN.md §3 C12",
+   text="the real Symbolizer runs against scripted object-file and symbol-service plug-ins; after recording the fault-free execution every plug-in call is failed in turn with every applicable failure kind (exhaustive single-fault coverage per generated profile), then seeded multi-fault plans; the oracle is a frame condition on a deep before/after snapshot: samples, values, labels, stacks, addresses and mapping ranges untouched, symbolized mappings left alone without force, names never emptied, ids unique, profile valid - also when Symbolize returns an error.",
+   note="trusted: the scripted plug-ins return only answers a real binutils/symbolz endpoint can return; 'already carries symbols' = HasFunctions",
+   tech="deterministic simulation: scripted plug-ins behind the ObjTool/Transport seams, exhaustive single-fault enumeration per call + seeded fault sequences, frame-condition oracle")
+order = ["C08","C10","C12","C16","C19","C20"]
 m = {
  "version":1,
  "setup_cmd":"cd /verif && ./setup.sh",
